@@ -313,6 +313,13 @@ def gen_c06(rnd, n, thorough=False):
             rnow = now - rnd.randint(1, 3 * layout[0][0]) if rnd.chance(0.25) else now      # a reader whose clock lags the writer's
             lines.append("clixread f %d %d %d" % (max(fr, 0), max(un, 0), rnow))
         cases.append({'id': 'c06-%d' % c, 'lines': lines, 'tags': {'layout': lname, 'writer': writer, 'levels': k, 'method': m}})
+        if writer == 'whispertool' and rnd.chance(0.12):
+            # created again over the file that is there, with a smaller (or larger) layout: the new file is
+            # exactly as long as its header says
+            other = rnd.pick([[(layout[0][0], max(layout[0][1] // 2, 1))], [(s_, nn + 3) for s_, nn in layout], layout[:1], [(1, 3)]])
+            cases.append({'id': 'c06-%d-recreate' % c, 'lines': ["create f %s m %d x %08x" % (fmt_layout(layout), m, xff), "sync f", "drop f",
+                                                                "recreate f %s m %d x %08x" % (fmt_layout(other), m, xff), "hdrof f"],
+                          'tags': {'layout': lname, 'writer': 'whispertool_recreate', 'levels': k, 'method': m}})
         if k >= 2 and rnd.chance(0.15):
             # the same archives declared in another order: whispertool writes no file for such a list
             # (the reference implementation would sort it; a file with a header describing another
